@@ -419,6 +419,7 @@ class RFCOMM_MCC_MSC:
     rtr: int
     ic: int
     dv: int
+    break_signal: int | None = None  # Optional third octet
 
     @staticmethod
     def from_bytes(data: bytes) -> RFCOMM_MCC_MSC:
@@ -429,6 +430,7 @@ class RFCOMM_MCC_MSC:
             rtr=data[1] >> 3 & 1,
             ic=data[1] >> 6 & 1,
             dv=data[1] >> 7 & 1,
+            break_signal=data[2] if len(data) > 2 else None,
         )
 
     def __bytes__(self) -> bytes:
@@ -442,7 +444,7 @@ class RFCOMM_MCC_MSC:
                 | self.ic << 6
                 | self.dv << 7,
             ]
-        )
+        ) + (bytes([self.break_signal]) if self.break_signal is not None else b'')
 
 
 # -----------------------------------------------------------------------------
